@@ -470,8 +470,17 @@ pub fn check_trace(l: &Layout, trace: &[Item], result: &Result<(), String>, en: 
         if owed_k { report!("C10-undrained", i, "polled again without reading the keyboard until Busy/End after a readiness notification".to_string()); owed_k = false; }
         if owed_t { report!("C10-undrained", i, "polled again without reading the tablet switch until Busy/End after a readiness notification".to_string()); owed_t = false; }
         let exp_to = rep.as_ref().map(|(_, d, _)| if *t_in >= *d { 1000 } else { *d - *t_in });
-        if rep.as_ref().map(|(_, d, _)| *t_in >= *d).unwrap_or(false) { obs.overdue_polls += 1; }
-        if exp_to != *timeout { report!("C11-timeout", i, format!("poll at t={}us: expected timeout {:?}us (timer {}), got {:?}us", t_in, exp_to, rep.as_ref().map(|(k, d, iv)| format!("keys {} deadline {}us interval {}us", keys_str(k), d, iv)).unwrap_or("not armed".into()), timeout)); }
+        let overdue = rep.as_ref().map(|(_, d, _)| *t_in >= *d).unwrap_or(false);
+        if overdue { obs.overdue_polls += 1; }
+        // armed and not yet due: the timeout must be exactly deadline - now (the clock is simulated);
+        // overdue: anything up to 1 ms; not armed: a needless timeout is tolerated here, because the
+        // statement only forbids the chord such a wake-up might send (checked at the send)
+        let timeout_ok = match (&rep, timeout) {
+          (None, _) => true,
+          (Some(_), None) => false,
+          (Some(_), Some(t)) => if overdue { *t <= 1000 } else { Some(*t) == exp_to },
+        };
+        if !timeout_ok { report!("C11-timeout", i, format!("poll at t={}us: expected timeout {:?}us (timer {}), got {:?}us", t_in, exp_to, rep.as_ref().map(|(k, d, iv)| format!("keys {} deadline {}us interval {}us", keys_str(k), d, iv)).unwrap_or("not armed".into()), timeout)); }
         last_poll_timed_out = false;
         match res {
           PollRes::Devices(ds) => {
